@@ -25,7 +25,10 @@ RULE = ('random ambiguous grammars (<=4 non-terminals, <=3 alternatives of lengt
         'Coq evaluates to_tree_explicit on it and compares with lark\'s tree (nested _ambig flattened on both sides), checks '
         'the well-formedness hypothesis of the theorem on the exported forest, and CollapseAmbiguities against collapse; '
         'Python oracle: brute-force derivations of the compiled BNF shaped independently vs expansion of lark\'s tree as sets; '
-        'cyclic stream: termination + every tree is the shape of a derivation. '
+        'cyclic stream: termination + every tree is the shape of a derivation; ignore stream: grammars with one or several '
+        '(also overlapping) %ignore terminals, half of them ambiguous at the root between differently shaped start '
+        'alternatives (aliases, _rules, ?rules, filtered/kept tokens), inputs with leading/inner/trailing ignored text, '
+        'oracle at character level with ignored text allowed before every token and after the last one. '
         'non-trivial = distinct (grammar, lexer, input) whose explicit tree contains at least one _ambig')
 TRUSTED_BASE = ['hand model Forest/ExplicitToTree.v of ForestToParseTree(resolve_ambiguity=False) and the rule callback chain, '
                 'tied by structural comparison on forests captured inside Lark.parse',
@@ -36,7 +39,10 @@ ASSUMPTIONS = ['no rule or alias is named _ambig/_iambig (reserved tree labels)'
                'propagate_positions=False, no user transformer, tree_class=Tree, no priorities (C05 covers them)',
                'derivations are relative to the token matches of the chosen lexer: basic = the single tokenisation of the '
                'basic lexer; dynamic = terminal matches given by re.match at each position (longest); dynamic_complete = '
-               'additionally every proper prefix of that match which the terminal matches']
+               'additionally every proper prefix of that match which the terminal matches',
+               '%ignore (dynamic lexers): a chain of non-empty re.match results of %ignore terminals may precede any token and '
+               'follow the last one; ignorable characters are disjoint from the grammar terminals in the generated grammars; '
+               'layer A (spans) is stated and checked for grammars without %ignore']
 
 IMPORTS = 'From LV Require Import Base.Prelude Forest.ExplicitToTree Forest.ExplicitCheck.'
 
@@ -113,6 +119,73 @@ def gen_split_grammar(rng, lexer):
         lines.append('%s: %s' % (n, '\n  | '.join(al)))
     for t, pat in terms:
         lines.append('%s: %s' % (t, pat))
+    return '\n'.join(lines) + '\n'
+
+
+# %ignore: the ignorable characters are ' ' and '-', never used by the grammars' own terminals
+IGNORE_SETS = [
+    ([' '], ['%ignore " "']),
+    ([' '], ['WS: / +/', '%ignore WS']),
+    ([' ', '-'], ['%ignore " "', '%ignore "-"']),
+    (['-'], ['%ignore "-"', '%ignore "--"']),               # overlapping ignored terminals
+    ([' ', '-'], ['WS: /[ ]+/', 'DD: "--"', 'D: "-"', '%ignore WS', '%ignore DD', '%ignore D']),
+    ([' ', '-'], ['IGN: /[ -]+/', '%ignore IGN']),
+]
+
+
+def add_ignores(rng, grammar):
+    chars, lines = rng.choice(IGNORE_SETS)
+    return grammar + '\n'.join(lines) + '\n', chars
+
+
+def decorate(rng, text, chars):
+    """text with ignorable runs inserted: leading, trailing, between characters"""
+    def run():
+        return ''.join(rng.choice(chars) for _ in range(rng.choice([1, 1, 2, 3])))
+    out = []
+    if rng.random() < 0.4:
+        out.append(run())
+    for k, c in enumerate(text):
+        if k > 0 and rng.random() < 0.3:
+            out.append(run())
+        out.append(c)
+    if rng.random() < 0.65:
+        out.append(run())
+    return ''.join(out)
+
+
+def gen_root_ambig_grammar(rng, lexer):
+    """ambiguity at the root: 2-4 alternatives of the start symbol over a shared small language, shaped differently
+    (alias, _inlined rule, ?rule, direct token sequence with filtered/kept tokens, two-rule sequence)"""
+    phrases = ['X', 'X Y', 'X X', '"x" Y', 'X "y"', 'Y', 'X Y X', '"x"', 'X [Y]', 'X Y?']
+    if lexer != 'basic':
+        phrases += ['XX', 'XX Y', '"xx"']
+    pool = rng.sample(phrases, rng.randint(1, 3))
+    alts, rules = [], []
+    for i in range(rng.randint(2, 4)):
+        kind = rng.choice(['rule', 'rule', 'inl', 'opt', 'direct', 'two'])
+        body = list(dict.fromkeys(rng.sample(pool, rng.randint(1, len(pool))) + ([rng.choice(phrases)] if rng.random() < 0.3 else [])))
+        if kind == 'rule':
+            alt = 'a%d' % i
+            rules.append('%s%s: %s' % (rng.choice(['', '', '!']), alt, ' | '.join(body)))
+        elif kind == 'inl':
+            alt = '_p%d' % i
+            rules.append('%s: %s' % (alt, ' | '.join(body)))
+        elif kind == 'opt':
+            alt = 'q%d' % i
+            rules.append('?%s: %s' % (alt, ' | '.join(body)))
+        elif kind == 'direct':
+            alt = rng.choice(body)
+        else:
+            alt = 'l%d r%d' % (i, i)
+            rules.append('l%d: X | "x" | ' % i)
+            rules.append('r%d: %s' % (i, ' | '.join(body)))
+        if kind != 'inl' and rng.random() < 0.45:
+            alt += ' -> %s' % rng.choice(['first', 'second', 'third'])
+        alts.append(alt)
+    lines = ['start: ' + '\n  | '.join(alts)] + rules + ['X: "x"', 'Y: "y"']
+    if lexer != 'basic':
+        lines.append('XX: "xx"')
     return '\n'.join(lines) + '\n'
 
 
@@ -631,7 +704,7 @@ def added_vs_forest(parser, lexer, text, fams, root):
     tmt = make_tmatch(parser, lexer, text)
     if tmt is None:
         return 'input accepted although the basic lexer cannot tokenise it'
-    n, tmatch = tmt
+    n, tmatch, _ = tmt
     spec = spec_families(parser.rules, 'start', n, tmatch)
     root_label = ('S', str(root.s.name), root.start, root.end)
     if root_label != ('S', 'start', 0, n):
@@ -785,34 +858,59 @@ def py_shape(d, maybe_placeholders):
     return ('tree', str(r.alias or o.template_source or r.origin.name), out)
 
 
+def ignore_skips(parser, text):
+    """%ignore under the dynamic lexers, as documented: ignored text may stand before any token and after the last one.
+    skip(i) = positions reachable from i through a chain of matches of %ignore terminals (each the match re gives at that
+    position, non-empty).  Identity when the grammar ignores nothing."""
+    import re
+    n = len(text)
+    pats = [re.compile(td.pattern.to_regexp()) for td in parser.terminals if td.name in set(parser.ignore_tokens)]
+    step = {}
+    for i in range(n):
+        ends = set()
+        for pat in pats:
+            m = pat.match(text, i)
+            if m and m.end() > i:
+                ends.add(m.end())
+        step[i] = ends
+    memo = {}
+
+    def skip(i):
+        if i not in memo:
+            seen = {i}
+            stack = [i]
+            while stack:
+                p = stack.pop()
+                for e in step.get(p, ()):
+                    if e not in seen:
+                        seen.add(e)
+                        stack.append(e)
+            memo[i] = sorted(seen)
+        return memo[i]
+    return skip
+
+
 def oracle_trees(parser, lexer, text, simple_paths=0, maybe_placeholders=True):
     """set of frozen shaped trees of all derivations of text; None if the input cannot be tokenised (basic)"""
-    if lexer == 'basic':
-        from lark.exceptions import UnexpectedInput
-        try:
-            toks = basic_tokens(parser, text)
-        except UnexpectedInput:
-            return None
-        n = len(toks)
-
-        def tmatch(name, i):
-            if i < n and toks[i][0] == name:
-                return [(i + 1, toks[i])]
-            return []
-    else:
-        tm = term_matches(parser, lexer, text)
-        n = len(text)
-
-        def tmatch(name, i):
-            return [(j, (name, text[i:j])) for j in sorted(tm.get((name, i), ()))]
-    ds = enumerate_derivations(parser.rules, 'start', n, tmatch, simple_paths)
-    if len(ds) > MAX_DERIVS:
-        raise OracleOverflow()
-    return {freeze(py_shape(d, maybe_placeholders)) for d in ds}
+    tmt = make_tmatch(parser, lexer, text)
+    if tmt is None:
+        return None
+    n, tmatch, ends = tmt
+    out = set()
+    total = 0
+    for j in ends:
+        ds = enumerate_derivations(parser.rules, 'start', j, tmatch, simple_paths)
+        total += len(ds)
+        if total > MAX_DERIVS:
+            raise OracleOverflow()
+        out |= {freeze(py_shape(d, maybe_placeholders)) for d in ds}
+    return out
 
 
 def make_tmatch(parser, lexer, text):
-    """(n, tmatch) or None when the basic lexer cannot tokenise text"""
+    """(n, tmatch, ends) or None when the basic lexer cannot tokenise text.  tmatch(name, i) = token matches of terminal
+    name that may follow position i (ignored text skipped first, dynamic lexers); ends = the positions at which a
+    derivation of the start symbol may end (n, or any position from which only ignored text follows)."""
     if lexer == 'basic':
         from lark.exceptions import UnexpectedInput
         try:
@@ -825,13 +923,16 @@ def make_tmatch(parser, lexer, text):
             if i < n and toks[i][0] == name:
                 return [(i + 1, toks[i])]
             return []
+        ends = [n]
     else:
         tm = term_matches(parser, lexer, text)
         n = len(text)
+        skip = ignore_skips(parser, text)
 
         def tmatch(name, i):
-            return [(j, (name, text[i:j])) for j in sorted(tm.get((name, i), ()))]
-    return n, tmatch
+            return [(j, (name, text[q:j])) for q in skip(i) for j in sorted(tm.get((name, q), ()))]
+        ends = [j for j in range(n + 1) if n in skip(j)]
+    return n, tmatch, ends
 
 
 class ShapeMembership:
@@ -1005,11 +1106,11 @@ def cyclic_verdict(parser, lexer, text, obs, mp):
     tmt = make_tmatch(parser, lexer, text)
     if tmt is None:
         return ('extra', 'input accepted although the basic lexer cannot tokenise it')
-    n, tmatch = tmt
+    n, tmatch, ends = tmt
     sm = ShapeMembership(parser.rules, n, tmatch, mp)
     try:
         for t in py_expand(obs['tree']):
-            if not sm.sym_tree('start', 0, n, freeze(t)):
+            if not any(sm.sym_tree('start', 0, j, freeze(t)) for j in ends):
                 return ('extra', 'tree in the result that is not the shape of a derivation: %r' % (freeze(t),))
     except (OracleOverflow, RecursionError):
         return None
@@ -1079,7 +1180,7 @@ def count_expansions(t, cap=10 ** 6):
     return n
 
 
-def run_stream(ctx, stream, ngrammars, cyclic_wanted, maxlen, cases, meta, defs, acases=None):
+def run_stream(ctx, stream, ngrammars, cyclic_wanted, maxlen, cases, meta, defs, acases=None, ignore=False):
     from lark.exceptions import GrammarError
     from lark import Tree
     rng = ctx.rng
@@ -1089,7 +1190,18 @@ def run_stream(ctx, stream, ngrammars, cyclic_wanted, maxlen, cases, meta, defs,
         attempts += 1
         lexer = rng.choice(['basic', 'dynamic', 'dynamic_complete', 'dynamic_complete'])
         opts = {'maybe_placeholders': rng.random() < 0.8, 'keep_all_tokens': rng.random() < 0.1}
-        g = gen_grammar(rng, lexer, cyclic_wanted)
+        alphabet = 'ab'
+        if ignore:
+            # grammars with %ignore terminals; half of them with the ambiguity at the root between differently shaped
+            # alternatives of the start symbol; mostly the dynamic lexers (ignored text is skipped by the parser itself)
+            lexer = rng.choice(['basic', 'dynamic', 'dynamic', 'dynamic_complete', 'dynamic_complete'])
+            if rng.random() < 0.55:
+                g, alphabet = gen_root_ambig_grammar(rng, lexer), 'xy'
+            else:
+                g = gen_grammar(rng, lexer, False)
+            g, ign_chars = add_ignores(rng, g)
+        else:
+            g = gen_grammar(rng, lexer, cyclic_wanted)
         try:
             parser = with_timeout(lambda: make_parser(g, lexer, **opts))
         except GrammarError:
@@ -1101,17 +1213,21 @@ def run_stream(ctx, stream, ngrammars, cyclic_wanted, maxlen, cases, meta, defs,
         if cyclic != cyclic_wanted:
             continue
         made += 1
-        alphabet = 'ab'
         inputs = list(all_inputs(alphabet, maxlen))
         inputs += [''.join(rng.choice(alphabet) for _ in range(rng.randint(maxlen + 1, maxlen + 2))) for _ in range(3)]
         if not cyclic:
             inputs += ['a' * k for k in range(maxlen + 1, maxlen + 4)] + ['a' * rng.randint(2, 5) + 'b', 'b' + 'a' * rng.randint(2, 5)]
+        if ignore:
+            inputs = [t for t in inputs if len(t) <= maxlen]
+            inputs = inputs + [decorate(rng, t, ign_chars) for t in inputs for _ in range(2)] + [rng.choice(ign_chars)]
         for text in inputs:
             obs = run_case(g, lexer, text, parser=parser)
             verdict = property_verdict(parser, lexer, text, obs, cyclic, mp=opts['maybe_placeholders'])
             amb = obs['status'] == 'ok' and contains_ambig(obs['tree'])
             ctx.count(stream, key=(g, lexer, text, tuple(sorted(opts.items()))), nontrivial=amb,
                       status=obs['status'], lexer=lexer, input_len=len(text),
+                      **({'ignored_text': ('trailing' if text and text[-1] in ign_chars else
+                                           'leading/inner' if any(c in ign_chars for c in text) else 'none')} if ignore else {}),
                       ambig_nodes=(min(5, repr(obs['tree']).count('_ambig')) if obs['status'] == 'ok' else 'n/a'))
             if verdict:
                 ctx.violation('property-oracle:%s' % verdict[0], witness(g, lexer, text, opts), True, verdict[1])
@@ -1166,6 +1282,8 @@ def correspond(ctx):
     acases = ([], [], [])
     run_stream(ctx, 'acyclic', ctx.scale(110, 1500) * k, False, 4, cases, meta, defs, acases)
     run_stream(ctx, 'cyclic', ctx.scale(30, 300) * k, True, 3, cases, meta, defs, acases)
+    # %ignore: layer B and the derivation oracle only (the span bookkeeping of layer A has no notion of ignored text)
+    run_stream(ctx, 'ignore', ctx.scale(45, 600) * k, False, 3, cases, meta, defs, None, ignore=True)
     exotic_f6(ctx, cases, meta, defs)
     check_layer_a(ctx, acases)
     ctx.extra['layer_A_forests_checked'] = len(acases[0])
